@@ -208,6 +208,23 @@ def PLookup (source nonce : Nat) (a : Ans) (q : Query) (r : Ans) : Prop :=
 instance (s n : Nat) (a : Ans) (q : Query) (r : Ans) : Decidable (PLookup s n a q r) := by
   unfold PLookup; infer_instance
 
+/-- one lookup of a SEQUENCE answered by one long-lived adapter (BridgeContract / Pallet). `earlier` = the lookups
+    before it with the node's answers (source domain, nonce, answer); `asked` = what the node was asked now (`none` = the
+    node was not asked). The lookup is faithful if the node is asked about exactly this proposal's (origin domain,
+    nonce) and its answer is passed on; the only admissible shortcut is not to ask about a pair the node has ALREADY
+    reported executed — the same domain AND the same nonce — and to answer "executed". -/
+def PLookupStep (earlier : List (Nat × Nat × Ans)) (source nonce : Nat) (a : Ans) (asked : Option Query) (r : Ans) : Prop :=
+  match asked with
+  | some q => PLookup source nonce a q r
+  | none => r = .exec ∧ (source, nonce, Ans.exec) ∈ earlier
+
+instance (e : List (Nat × Nat × Ans)) (s n : Nat) (a : Ans) (q : Option Query) (r : Ans) :
+    Decidable (PLookupStep e s n a q r) := by unfold PLookupStep; split <;> infer_instance
+
+/-- the adapters of the code as it is keep no state: every lookup asks the node -/
+def lookupSeq (qs : List (Nat × Nat × Ans)) : List (Option Query × Ans) :=
+  qs.map fun q => (some (lookupQuery q.1 0 q.2.1), lookupAnswer q.2.2)
+
 /-! ### submission (`watchExecution` → `executeBatch` / `executeProposal`) -/
 
 /-- what is submitted when the signature of a session arrives: exactly the proposals of that session, once -/
